@@ -64,6 +64,9 @@ theorem sendSd_cases (s : Stack) (es : List SDEntry) (d : Dest) (hne : es ≠ []
 @[simp] theorem sendSd_tm (s : Stack) (es : List SDEntry) (d : Dest) : (s.sendSd es d).tm = s.tm := by
   unfold sendSd; split; rfl; simp only []; split; rfl; split <;> rfl
 
+@[simp] theorem flushTo_tm (s : Stack) (es : List SDEntry) (d : Dest) : (s.flushTo es d).tm = s.tm := by
+  unfold flushTo; rw [sendSd_tm]
+
 @[simp] theorem queueSend_tm (s : Stack) (e : SDEntry) (d : Dest) : (s.queueSend e d).tm = s.tm := by
   unfold queueSend; simp only []; split
   · simp
